@@ -1,9 +1,11 @@
 (* C01 Escrow solvency: funds held always equal what open orders are owed. *)
 From ATS Require Import Prelude Dec DecFacts Uuid Semver Types Contract Tactics Spec Inv InvAsk InstProofs AskProofs
-  BidFacts InvBid InvStep ExitProofs Ledger.
+  BidFacts InvBid InvStep ExitProofs Ledger MigrateProofs MigrateInv Hist.
 
 (* Per step.  For every accepted request of any kind, in any state satisfying the invariant, outside the known
-   numeric classes (clean_exec) and with a sender other than the contract itself, for EVERY denomination:
+   numeric classes (clean_exec: a side condition on MATCHES only -- the products price*size it forms are exact, which
+   holds whenever mantissa(price)*size < 2^96, and the fee due grows with the amount spent; every other request kind
+   needs none) and with a sender other than the contract itself, for EVERY denomination:
      attached funds + escrow pulled in + owed before  =  paid out + owed after
    where owed = every ask's unfilled size in its base + every approved ask's approver amount + every bid's unspent
    quote and unspent fee.  Nothing is over-paid (the payouts are funded by what the orders were owed) and nothing
@@ -28,6 +30,18 @@ Proof.
   rewrite (owed_init e m st0 r0 d Hi) in H. lia.
 Qed.
 Print Assumptions C01_solvency.
+
+(* ... and the same over histories that interleave execute requests with migrations of the contract (a migration of a
+   reachable state leaves the book untouched, moves nothing and re-establishes the invariant) *)
+Theorem C01_solvency_with_migrations : forall e m st0 r0 hs d,
+  env_version_ok e -> instantiate e empty_state m = Ok (st0, r0) -> hclean st0 hs ->
+  fst (hledger st0 hs d) = snd (hledger st0 hs d) + owed (hrun st0 hs) d.
+Proof.
+  intros e m st0 r0 hs d He Hi Hc.
+  pose proof (hledger_balances hs st0 d (Inv_init e m st0 r0 He Hi) Hc) as H.
+  rewrite (owed_init e m st0 r0 d Hi) in H. lia.
+Qed.
+Print Assumptions C01_solvency_with_migrations.
 
 (* a refused request changes nothing and moves nothing (it contributes nothing to the ledger: by definition of
    `ledger` and `run_event`); an order leaving the book releases exactly what it was owed: *)
